@@ -5,8 +5,8 @@
 EXTENDS ProxiedCircuit, Json
 CONSTANTS Depth, SampleOneIn
 DispsCore == {"fwd", "drop", "take"}
-DispsAll == {"fwd", "drop", "take", "droptake", "fwdtake"}
-DispsTakes == {"fwd", "take", "droptake", "fwdtake"}
+DispsAll == {"fwd", "drop", "take", "droptake", "fwdtake", "claim"}
+DispsTakes == {"fwd", "take", "droptake", "fwdtake", "claim"}
 VARIABLE hist
 St == [epSent |-> epSent, epRel |-> epRel, epDropped |-> epDropped, inj |-> inj, base |-> base,
        delivered |-> delivered, pending |-> pending, done |-> done, quiet |-> quiet]
